@@ -411,7 +411,25 @@ func ClearRulesOfResource(res string) error {
 // BuildResourceCircuitBreaker builds CircuitBreaker slice from rules. the resource of rules must be equals to res
 func BuildResourceCircuitBreaker(res string, rulesOfRes []*Rule, oldResCbs []CircuitBreaker) []CircuitBreaker {
 	newCbsOfRes := make([]CircuitBreaker, 0, len(rulesOfRes))
-	for _, r := range rulesOfRes {
+	// Unchanged rules claim their old circuit breaker first. Otherwise a new or modified rule earlier in the
+	// list that is merely statistic-reusable with such an old circuit breaker would take its statistic and
+	// remove it from the candidates, and the unchanged rule would be rebuilt from scratch, losing its
+	// runtime state.
+	unchangedCbs := make([]CircuitBreaker, len(rulesOfRes))
+	for i, r := range rulesOfRes {
+		if r == nil || res != r.Resource {
+			continue
+		}
+		if equalIdx, _ := calculateReuseIndexFor(r, oldResCbs); equalIdx >= 0 {
+			unchangedCbs[i] = oldResCbs[equalIdx]
+			oldResCbs = append(oldResCbs[:equalIdx], oldResCbs[equalIdx+1:]...)
+		}
+	}
+	for i, r := range rulesOfRes {
+		if unchangedCbs[i] != nil {
+			newCbsOfRes = append(newCbsOfRes, unchangedCbs[i])
+			continue
+		}
 		if res != r.Resource {
 			logging.Error(errors.Errorf("unmatched resource name expect: %s, actual: %s", res, r.Resource), "Unmatched resource name in circuitBreaker.BuildResourceCircuitBreaker()", "rule", r)
 			continue
